@@ -92,3 +92,20 @@ def gen_range_guard(ctx, rid):
             zero = any("ZERO" in str(x.get("item", "")) or x.get("pp", "").startswith("core::time::Duration {") or "ZERO" in x.get("pp", "") for x in s0.consts)
             good = zero and ("acmed::certificate::Certificate", "random_early_renew") in s1.fields
         ctx.require(rid, good, c.where(), "the jitter range is the half-open Duration::ZERO..self.random_early_renew", ["Certificate::renew_in", "jitter-range"])
+
+
+def body_family(prog, root_key):
+    """the body, and every closure it (transitively) hands to a callee — all in the helper-inlined view"""
+    rb = prog.must_body(root_key)
+    fam = [rb]
+    seen = {rb.key}
+    i = 0
+    while i < len(fam):
+        for c in fam[i].calls:
+            for g in c.gbodies:
+                gb = prog.body(g)
+                if gb is not None and g not in seen:
+                    seen.add(g)
+                    fam.append(gb)
+        i += 1
+    return fam
